@@ -872,6 +872,14 @@ def audit_return_forms(ctx):
                 for t in tg:
                     if isinstance(t, ast.Subscript) and isinstance(t.value, ast.Name) and t.value.id in filled_:
                         hit = st
+                    # the collected list re-bound after the loop to something made from it (a filtered copy, a comprehension over it):
+                    # a conversion of the whole list (np.array(L), list(L), sorted(L)) is not a change of what was collected
+                    if isinstance(t, ast.Name) and t.id in filled_ and isinstance(st, (ast.Assign, ast.AugAssign)):
+                        v_ = st.value
+                        conv = isinstance(v_, ast.Call) and norm_text(v_.func) in ("np.array", "np.asarray", "numpy.array", "list", "tuple", "sorted") and len(v_.args) == 1 \
+                            and isinstance(v_.args[0], ast.Name) and v_.args[0].id == t.id and all(k.arg == "dtype" for k in v_.keywords)
+                        if not conv:
+                            hit = st
                 if hit is not None:
                     res.error(f"{q}: `{ast.unparse(hit)[:70]}` (line {hit.lineno}) changes the list collected by the main loop after the loop and is not judged by any rule of this property - shape not recognised")
         for r in ast.walk(fi.node):
